@@ -2,6 +2,7 @@ package dgen
 
 import (
 	"bytes"
+	"encoding/json"
 	"fmt"
 	"os"
 	"path/filepath"
@@ -145,4 +146,162 @@ func dedup(xs []string) []string {
 		}
 	}
 	return out
+}
+
+// TestC19LinkedEnums: the generator's link mode (dialect-import --link, the way the shipped dialects are made): a
+// definition includes another one whose package already exists; what it takes over unchanged refers to that package,
+// what it extends is its own. The included definition is converted first and stands (through a build overlay, the
+// repository tree is not touched) where linked packages are imported from; then the enums of the including
+// definition - those it defines, those it takes over and those it extends - are probed like all others.
+func TestC19LinkedEnums(t *testing.T) {
+	rec := evid.New(t, "C19", "two-file definitions from the random dialect model (a top file including one other file) converted in link mode: the included file by itself first (its package is placed at pkg/dialects/<name> through a go build overlay), then the top file with link=true; the generated package is compiled and every enum visible in it (own, taken over from the included package, extended by the top file) is probed as in TestC19GeneratedEnums; non-trivial = the top file adds entries to an enum of the included file; distinct by hash of the XML")
+	rec.Require("linked-enum-taken-over-unchanged", "linked-enum-extended-by-the-including-definition")
+	root := scratch(t)
+	defer os.RemoveAll(root)
+	repo := os.Getenv("VERIF_REPO")
+	if repo == "" {
+		repo = "/repo"
+	}
+	evid.Check(t, rec, evid.N(12, 60), func(t *rapid.T) {
+		caseCounter++
+		caseDir := fmt.Sprintf("l%d", caseCounter)
+		defer os.RemoveAll(filepath.Join(root, caseDir))
+		forceFiles = 2
+		d := drawDialectModel(t, 0)
+		forceFiles = 0
+		inc := XDialect{Files: []XFile{d.Files[1]}}
+		incPkg := inc.PkgName()
+		if _, err := os.Stat(filepath.Join(repo, "pkg", "dialects", incPkg)); err == nil || strings.Contains(d.Files[1].Name, "/") || len(d.Files[1].Includes) > 0 {
+			t.Skip("included file is not a plain neighbour")
+		}
+		// the included definition has to stand on its own feet to be a package of its own
+		own := map[string]bool{}
+		for _, e := range d.Files[1].Enums {
+			if len(e.Entries) == 0 {
+				t.Skip("included file only announces an enum")
+			}
+			own[e.Name] = true
+		}
+		for _, m := range d.Files[1].Msgs {
+			for _, f := range m.Fields {
+				if f.Enum != "" && !own[f.Enum] {
+					t.Skip("included file uses an enum of the including file")
+				}
+			}
+		}
+		// the case this is about by construction: the top file adds entries to an enum of the included file (an
+		// ordinary one gets the smallest unused values, a bitmask one bits that no entry uses)
+		if len(d.Files[1].Enums) == 0 {
+			d.Files[1].Enums = append(d.Files[1].Enums, XEnum{Name: "E_LINKED_BASE", Bitmask: rapid.Bool().Draw(t, "added_base_bitmask"),
+				Entries: []XEntry{{Name: "E_LINKED_BASE_ONE", Value: 1, Text: "1"}, {Name: "E_LINKED_BASE_FOUR", Value: 4, Text: "4"}}})
+		}
+		topHas := map[string]bool{}
+		for _, e := range d.Files[0].Enums {
+			topHas[e.Name] = true
+		}
+		for _, e := range d.Files[1].Enums {
+			if topHas[e.Name] {
+				continue
+			}
+			used, bits := map[uint64]bool{}, uint64(0)
+			for _, x := range e.Entries {
+				used[x.Value] = true
+				bits |= x.Value
+			}
+			ext := XEnum{Name: e.Name, Bitmask: e.Bitmask, AttrStyle: e.AttrStyle}
+			for k := 0; k < rapid.IntRange(1, 2).Draw(t, "added_entries"); k++ {
+				var v uint64
+				if e.Bitmask {
+					b := 0
+					for b < 63 && bits&(1<<uint(b)) != 0 {
+						b++
+					}
+					if bits&(1<<uint(b)) != 0 {
+						break
+					}
+					v = 1 << uint(b)
+					bits |= v
+				} else {
+					for used[v] {
+						v++
+					}
+					used[v] = true
+				}
+				ext.Entries = append(ext.Entries, XEntry{Name: fmt.Sprintf("%s_ADDED_BY_TOP%d", e.Name, k), Value: v, Text: fmt.Sprint(v)})
+			}
+			if len(ext.Entries) > 0 {
+				d.Files[0].Enums = append(d.Files[0].Enums, ext)
+			}
+			break
+		}
+		// ... and one enum of the included file that the top file leaves alone
+		{
+			bm := rapid.Bool().Draw(t, "kept_enum_bitmask")
+			d.Files[1].Enums = append(d.Files[1].Enums, XEnum{Name: "E_LINKED_KEPT", Bitmask: bm, AttrStyle: rapid.IntRange(0, 3).Draw(t, "kept_enum_attr"),
+				Entries: []XEntry{{Name: "E_LINKED_KEPT_A", Value: 1, Text: "1"}, {Name: "E_LINKED_KEPT_B", Value: 2, Text: "0x2"}, {Name: "E_LINKED_KEPT_C", Value: 8, Text: "8"}}})
+		}
+		fail := func(format string, a ...interface{}) {
+			msg := fmt.Sprintf(format, a...)
+			var xml strings.Builder
+			for _, f := range d.Files {
+				fmt.Fprintf(&xml, "--- %s.xml ---\n%s", f.Name, f.XML())
+			}
+			evid.ReplayNote("C19", "TestC19LinkedEnums", msg+"\n"+xml.String())
+			t.Fatalf("%s\n%s", msg, xml.String())
+		}
+		inc = XDialect{Files: []XFile{d.Files[1]}} // with what was added above
+		incDir, err := convertMode(inc, filepath.Join(root, caseDir, "inc"), nil, true)
+		if err != nil {
+			fail("the included definition converted by itself (link mode): %v", err)
+		}
+		sub := filepath.Join(caseDir, "main")
+		if _, err := convertMode(d, filepath.Join(root, sub), nil, true); err != nil {
+			fail("valid definition refused in link mode: %v", err)
+		}
+		files, rerr := readTree(incDir)
+		if rerr != nil || len(files) == 0 {
+			t.Fatalf("BROKEN: %v", rerr)
+		}
+		repl := map[string]string{}
+		for name := range files {
+			repl[filepath.Join(repo, "pkg", "dialects", incPkg, name)] = filepath.Join(incDir, name)
+		}
+		ov, _ := json.Marshal(map[string]interface{}{"Replace": repl})
+		ovPath := filepath.Join(root, caseDir, "overlay.json")
+		must(os.WriteFile(ovPath, ov, 0o644))
+		writeProbe(root, []XDialect{d}, []string{sub})
+		res, out, err := buildAndRunOverlay(root, ovPath)
+		if err != nil {
+			fail("link mode: %v:\n%s", err, out)
+		}
+		if err := compareEnums(d, res[0]); err != nil {
+			fail("link mode (the included definition %s is a package of its own): %v", d.Files[1].Name, err)
+		}
+		var cls []string
+		incEnums := map[string]bool{}
+		for _, e := range d.Files[1].Enums {
+			incEnums[e.Name] = true
+		}
+		extended := false
+		for _, e := range d.Files[0].Enums {
+			if incEnums[e.Name] && len(e.Entries) > 0 {
+				extended = true
+				delete(incEnums, e.Name)
+			}
+		}
+		if extended {
+			cls = append(cls, "linked-enum-extended-by-the-including-definition")
+		}
+		if len(incEnums) > 0 {
+			cls = append(cls, "linked-enum-taken-over-unchanged")
+		}
+		var xmlAll []byte
+		for _, f := range d.Files {
+			xmlAll = append(xmlAll, f.XML()...)
+		}
+		rec.Case(extended, evid.Hash(xmlAll), cls...)
+		if extended && rec.WantSample("linked") {
+			rec.Sample("linked", map[string]interface{}{"top": d.Files[0].Name, "included": d.Files[1].Name})
+		}
+	})
 }
